@@ -95,6 +95,15 @@ class Reply:
                 full = bytearray(mac)
                 full[bit // 8] ^= 1 << (bit % 8)
                 mac = bytes(full)
+            elif mode == "xor-words":
+                # the same 32-bit mask applied to two (or all three) of the MAC's words: the differences
+                # cancel under an XOR fold, never under a proper comparison
+                mask = bytes.fromhex(sec.get("xor_mask", "00000001"))
+                full = bytearray(mac)
+                for w in sec.get("xor_at", [0, 1]):
+                    for i in range(4):
+                        full[4 * w + i] ^= mask[i]
+                mac = bytes(full)
             elif mode == "random":
                 mac = bytes.fromhex(sec["mac_hex"])
             elif mode == "absent":
